@@ -357,8 +357,20 @@ WorkRepeat == 3     \* a managed helper is driven at most a few times per index 
 RECURSIVE MaxOf(_)
 MaxOf(S) == IF S = {} THEN 0 ELSE LET x == CHOOSE y \in S : TRUE IN MaxI(x, MaxOf(S \ {x}))
 WarmMax(T, j) == MaxOf({Warm(T.ind[n]) : n \in {n \in reg : T.ind[n].mg = j}})
+\* the same single-candle append measured at two history lengths (hist2 >> hist1): the number of
+\* executed lines of indicator code and of computed readings must not grow with the history
+ScaleSlack(nl) == (nl \div 4) + 25
+ScaleFindings(e) ==
+  LET a == e.wk[1]  b == e.wk[2]
+  IN (IF b.lines > a.lines + ScaleSlack(a.lines) THEN {<<"work_scale_lines", 1, "", b.lines>>} ELSE {})
+     \cup (IF Len(b.calls) > Len(a.calls) THEN {<<"work_scale_calls", 1, "", Len(b.calls)>>} ELSE {})
+     \cup (IF a.minread >= 0 /\ b.minread >= 0 /\ (b.hist - b.minread) > (a.hist - a.minread) + 2
+           THEN {<<"work_scale_lookback", 1, "", b.hist - b.minread>>} ELSE {})
+     \cup {<<"ok", 1, "work", 0>>}
+
 WorkFindings(T, e, mid, post) ==
   IF Len(e.wk) = 0 THEN {}
+  ELSE IF e.op = "scale" THEN ScaleFindings(e)
   ELSE LET w == e.wk[1]
            j == w.j
            new == {i \in 1..Len(post[j]) :
